@@ -162,3 +162,47 @@ package starlark
 //@   requires step != 0
 //@   ensures exact: result == rlen(start, stop, step)
 //@   nopanic
+
+// ---- comparison (C11)
+//@ specfn fcmp(x, y float) int = ite(isNaN(x), ite(isNaN(y), 0, 1), ite(isNaN(y), -1, ite(x < y, -1, ite(x == y, 0, 1))))
+//@ lemma [C11] fcmp_total_order(a, b, c float): fcmp(a, a) == 0 && fcmp(a, b) == -fcmp(b, a) && (fcmp(a, b) <= 0 && fcmp(b, c) <= 0 ==> fcmp(a, c) <= 0) && (fcmp(a, b) == 0 && fcmp(b, c) == 0 ==> fcmp(a, c) == 0) && (isNaN(a) && !isNaN(b) ==> fcmp(a, b) == 1)
+//@ func floatCmp
+//@   prop C11
+//@   nopanic
+//@   ensures result == fcmp(x, y)
+//@ func Float.Cmp
+//@   prop C11
+//@   requires typeis(v, Float)
+//@   nopanic
+//@   ensures err == nil && result0 == fcmp(f, as(v, Float))
+
+//@ specfn iscmp(op int) bool = op == syntax.EQL || op == syntax.NEQ || op == syntax.LT || op == syntax.LE || op == syntax.GT || op == syntax.GE
+//@ specfn tw(op int, c int) bool = ite(op == syntax.EQL, c == 0, ite(op == syntax.NEQ, c != 0, ite(op == syntax.LE, c <= 0, ite(op == syntax.LT, c < 0, ite(op == syntax.GE, c >= 0, c > 0)))))
+//@ lemma [C11] threeway_coherent(c int): (tw(syntax.EQL, c) <==> !tw(syntax.NEQ, c)) && (tw(syntax.LT, c) <==> !tw(syntax.GE, c)) && (tw(syntax.GT, c) <==> !tw(syntax.LE, c)) && (tw(syntax.LE, c) <==> tw(syntax.LT, c) || tw(syntax.EQL, c)) && (tw(syntax.LT, c) <==> tw(syntax.GT, -c))
+//@ func threeway
+//@   prop C11
+//@   requires iscmp(op)
+//@   nopanic
+//@   ensures result == tw(op, cmp)
+
+// exact int/float comparison: sign of the difference of the mathematical values; NaN is greatest
+//@ specfn ifcmp(v int, f float) int = ite(isNaN(f), -1, ite(isInf(f), ite(isNeg(f), 1, -1), sign(real(v) - real(f))))
+//@ func Int.rational
+//@   prop C11 C10
+//@   nopanic
+//@   ensures result != nil && result.val == real(val(i))
+//@ func Float.rational
+//@   prop C11 C10
+//@   nopanic
+//@   ensures isFinite(f) ==> result != nil && result.val == real(f)
+//@ func sameType
+//@   trusted reflect.TypeOf and Type() strings; int and float are distinct types with distinct names
+//@   pure
+//@   ensures sametag(x, y) ==> result
+//@   ensures (typeis(x, Int) && typeis(y, Float)) || (typeis(x, Float) && typeis(y, Int)) ==> !result
+//@ func CompareDepth
+//@   prop C11 C10
+//@   requires x != nil && y != nil && iscmp(op)
+//@   ensures int_float: depth >= 1 && typeis(x, Int) && typeis(y, Float) ==> err == nil && result0 == tw(op, ifcmp(val(as(x, Int)), as(y, Float)))
+//@   ensures float_int: depth >= 1 && typeis(x, Float) && typeis(y, Int) ==> err == nil && result0 == tw(op, -ifcmp(val(as(y, Int)), as(x, Float)))
+//@   ensures depth_guard: depth < 1 ==> err != nil
